@@ -81,12 +81,28 @@ theorem foldl_out (c : Conn) : ∀ (fs : List Frame) (st : RState) (d : Delivery
           exact ⟨f, by simp, hd'⟩
     · right; exact ⟨g, by simp [hg], hd⟩
 
-/-- a frame the man in the middle made himself is never delivered -/
-theorem forged_not_delivered (c : Conn) (sent : List Frame) (f : Frame) (hd : Derivable c.k sent f)
+/-- a frame this endpoint packed itself, sent back to it: it opens (same key, same nonce) but the
+payload signature is its OWN, and it is verified under the REMOTE endpoint's handshake key -/
+theorem recvFrame_reflected (c : Conn) (hne : c.self ≠ c.pk) (sender : Bytes) (m : Msg) (nonce : Nat)
+    (reply : Bool) : recvFrame c (pack c.self c.k sender m nonce reply) = .err .sig := by
+  have : Sig.good c.self m.value ≠ Sig.good c.pk m.value := by
+    intro h; injection h with h _; exact hne h
+  simp [recvFrame, pack, this]
+
+/-- the frames this endpoint sent on the connection were packed by it, with its own key -/
+def OwnPacked (c : Conn) (own : List Frame) : Prop :=
+  ∀ f ∈ own, ∃ sender m nonce reply, f = pack c.self c.k sender m nonce reply
+
+/-- a frame the man in the middle made himself, or bounced back, is never delivered -/
+theorem forged_not_delivered (c : Conn) (hne : c.self ≠ c.pk) (sent own : List Frame)
+    (hown : OwnPacked c own) (f : Frame) (hd : Derivable c.k sent own f)
     (hn : f ∉ sent) : ∀ d, recvFrame c f ≠ .deliver d := by
   intro d h
   cases hd with
   | copy hm => exact hn hm
+  | reflect hm =>
+    obtain ⟨sender, m, nonce, reply, rfl⟩ := hown f hm
+    rw [recvFrame_reflected c hne] at h; simp at h
   | raw n => simp [recvFrame] at h
   | broken => simp [recvFrame] at h
   | otherKey hk => simp [recvFrame, hk] at h
@@ -112,5 +128,41 @@ theorem recvAll_honest (c : Conn) (sender : Bytes) :
       (fun x hx => hk x (by simp [hx]))
     rw [this]
     simp
+
+/-- with the error channel drained, only damage to the framing (or a crash) stops a connection:
+as long as no frame is `broken` and none panics, the receiver never stalls and delivers exactly
+the deliverable frames, in order -/
+theorem recvAll_no_stall (c : Conn) (hd : c.drains = true) :
+    ∀ (fs : List Frame) (st : RState), st.stalled = false → st.crashed = false →
+      (∀ f ∈ fs, recvFrame c f ≠ .err .framing ∧ ∀ s, recvFrame c f ≠ .panic s) →
+      (fs.foldl (rstep c) st).stalled = false ∧ (fs.foldl (rstep c) st).crashed = false ∧
+      (fs.foldl (rstep c) st).out = st.out ++ fs.filterMap (fun f =>
+        match recvFrame c f with
+        | .deliver d => some d
+        | _ => none) := by
+  intro fs
+  induction fs with
+  | nil => intro st h1 h2 _; simp [h1, h2]
+  | cons f fs ih =>
+    intro st h1 h2 hf
+    have hf0 := hf f (by simp)
+    simp only [List.foldl_cons]
+    have hstep : (rstep c st f).stalled = false ∧ (rstep c st f).crashed = false ∧
+        (rstep c st f).out = st.out ++ (match recvFrame c f with
+          | .deliver d => [d]
+          | _ => []) := by
+      unfold rstep
+      simp only [h1, h2, Bool.false_eq_true, or_self, if_false]
+      cases hr : recvFrame c f with
+      | deliver d => simp [h1, h2]
+      | skip => simp [h1, h2]
+      | panic s => exact absurd hr (hf0.2 s)
+      | err e =>
+        have he : e ≠ .framing := by intro h; subst h; exact hf0.1 hr
+        simp [he, hd, h1, h2]
+    obtain ⟨a, b, c'⟩ := ih (rstep c st f) hstep.1 hstep.2.1 (fun g hg => hf g (by simp [hg]))
+    refine ⟨a, b, ?_⟩
+    rw [c', hstep.2.2]
+    cases hr : recvFrame c f <;> simp [List.filterMap_cons, hr]
 
 end Dos.P2PSym
